@@ -7,6 +7,7 @@ import (
 
 	"kvassverif/core"
 	"kvassverif/cyc"
+	_ "kvassverif/node" // its specs (C16) must be registered before this package's init extends them
 )
 
 var realWorld = []string{"coordinator.Coordinator.Run (real cycles on the fake clock)", "discovery.TargetsDiscovery, explore.Explore, prom.ConfigManager wired as cmd/kvass/coordinator.go", "kubernetes.ReplicasManager / shardManager over a fake clientset", "shard.Shard + pkg/api over the simulated transport", "per pod a real sidecar: TargetsManager + store directory, Service (gin), Proxy, Injector, ConfigManager, scrape.Manager"}
@@ -43,6 +44,12 @@ func init() {
 			sp.Rule += "; every 157th run is a closed-loop world run (real coordinator + real sidecars + Prometheus stubs on the fake clock, with faults) whose every cycle trace goes through the same oracle"
 			sp.TapeCap = 400000
 		}
+	}
+	if sp, err := core.Lookup("C16"); err == nil {
+		sp.Extra = worldRun(WGen{ConfigFocus: true, ShortQuiet: true}, cyc.Which{}, "C16")
+		sp.ExtraEvery = 13
+		sp.Rule += "; every 13th run is a closed-loop world run with file-mode and push-mode sidecars and drawn configuration events (semantic edits, cosmetic edits that only touch an external label and a comment, late file roll-outs): at every cycle a shard must be treated as in sync exactly when the configuration it runs has the coordinator's semantic revision"
+		sp.TapeCap = 400000
 	}
 	core.Register(&core.Spec{
 		ID: "C03", Engine: "world", Run: worldRun(WGen{}, cyc.Which{}, "C03"),
